@@ -551,6 +551,34 @@ def check_clear(ctx, res: Result, cls: str, exempt=()):
         res.check(bool(ops), "P-CLEAR", f, f"self.{tab}.clear()", tab, f"clear() leaves {tab} populated", _where(v, v.fi.node))
 
 
+def check_live_iteration(ctx, res: Result, cls: str):
+    """E-LIVEITER: a loop that iterates directly over an internal table (or over the list stored in it) must not, in
+    its body, write that same table - directly or through a `self.<method>()` call.  (Iterating a copy - list(...),
+    a comprehension, a value returned by a getter that builds a new list - is the accepted idiom.)"""
+    for name, fi in ctx.methods(cls).items():
+        v = ctx.view(fi)
+        for lp in [n for n in walk_no_nested(fi.node) if isinstance(n, ast.For)]:
+            t = v.table_of(lp.iter)
+            if t is None:
+                continue
+            _, tab, elem = t
+            body_nodes = {id(x) for b in lp.body for x in ast.walk(b)}
+            # what disturbs the iteration: shrinking the iterated list (remove / del at element level) when a stored list is
+            # iterated; inserting / deleting keys when the table itself is iterated.  Appends to the lists of OTHER keys
+            # (add_edge of a shrunken hyperedge) do not.
+            if elem:
+                kinds = ("remove", "del", "clear")
+                writers = [o for o in v.ops(with_calls=True) if o.table == tab and o.op in kinds and (o.elem_level or o.op == "clear") and id(o.node) in body_nodes]
+                writers = [o for o in writers if o.via or o.key is None or not (isinstance(lp.iter, ast.Subscript) and isinstance(o.node, ast.Call) and isinstance(o.node.func, ast.Attribute) and isinstance(o.node.func.value, ast.Subscript) and norm(o.node.func.value.slice) != norm(lp.iter.slice))]
+            else:
+                writers = [o for o in v.ops(with_calls=True) if o.table == tab and o.op in ("store", "del", "clear", "setattr") and not o.elem_level and id(o.node) in body_nodes]
+            for o in writers:
+                via = f" (through {o.via})" if o.via else ""
+                res.violation("E-LIVEITER", fi.short, norm(o.node), f"{tab}:{norm(lp.iter)}", f"`{norm(lp.iter)}` is iterated while the loop body modifies {tab}{via}: elements are skipped (every other incident hyperedge survives)", _where(v, o.node))
+            if not writers:
+                res.ok("E-LIVEITER", fi.short, norm(lp.iter), tab, _where(v, lp))
+
+
 # ----------------------------------------------------------------------------- atomic rejection
 def check_atomic(ctx, res: Result, cls: str, methods):
     for m in methods:
